@@ -510,16 +510,25 @@ func (fx *fnExec) checkPost(e *Exit) {
 	if os.Getenv("VERIF_PFDEBUG") != "" && len(e.Results) == 1 {
 		// diagnosis aid: the conjuncts of pf(result) as separate (untracked) obligations
 		if ref, _, _, ok := refOf(e.Results[0]); ok {
-			var ht string
+			type cand struct{ ht, guard string }
+			var cands []cand
 			switch x := e.Results[0].(type) {
 			case PtrV:
-				ht = x.HT
+				cands = append(cands, cand{x.HT, "true"})
+			case IfV:
+				if rt != nil && rt.Len() == 1 {
+					for _, ct := range fx.g.implementers(rt.At(0).Type()) {
+						if pt, ok := ct.(*types.Pointer); ok {
+							cands = append(cands, cand{fx.g.heapTypeName(pt.Elem()), eq(x.Tag, num(int64(fx.g.typeTag(ct))))})
+						}
+					}
+				}
 			}
-			if ht != "" {
-				if _, _, _, ok := fx.posInv(final, ht, ref); ok {
+			for _, cd := range cands {
+				if _, _, _, ok := fx.posInv(final, cd.ht, ref); ok {
 					parts, desc := fx.lastPFParts, fx.lastPFDesc
 					for i := range parts {
-						s.oblig("pfdebug", fmt.Sprintf("%d%s", i, suffix), []string{"debug"}, final.reach, parts[i], fx.posOf(e.Pos), desc[i]).NoAssume = true
+						s.oblig("pfdebug", fmt.Sprintf("%s.%d%s", cd.ht, i, suffix), []string{"debug"}, and(final.reach, cd.guard), parts[i], fx.posOf(e.Pos), cd.ht+": "+desc[i]).NoAssume = true
 					}
 				}
 			}
